@@ -467,6 +467,16 @@ func (t *Task) executeWithLocking() {
 
 func (t *Task) addToSchedule(overtime bool) {
 	if !t.isActive() {
+		// An inactive task is not scheduled. If it is still in the schedule from
+		// when it was active, take it out: its position in the (sorted) schedule
+		// does not match its changed execution time anymore.
+		if t.scheduleListElement != nil {
+			scheduleLock.Lock()
+			taskSchedule.Remove(t.scheduleListElement)
+			t.overtime = false
+			scheduleLock.Unlock()
+			t.scheduleListElement = nil
+		}
 		return
 	}
 
